@@ -462,7 +462,9 @@ impl LanguageServer for Backend {
     }
 
     async fn did_save(&self, params: DidSaveTextDocumentParams) {
-        self.update_document_from_file(&params.text_document.uri, None)
+        // The text of an open document is what the client sent, not what a file holds (a byte
+        // order mark, another program writing to it).
+        self.refresh_document(&params.text_document.uri)
             .await
             .map_err(|err| error!("{err}"))
             .err();
